@@ -289,7 +289,7 @@ PROPS = {
                 'real TargetsDiscovery -> ActiveTargetsByHash -> JSON -> real Injector -> config.Load of the written file -> TargetsFromGroup on '
                 'the generated job -> real Proxy.ServeHTTP with a recording client. Compared: visible labels and the URL really requested. '
                 'non-trivial = the reference has >= 1 active target; distinct by input',
-        'theorems': 'C02_equivalent C02_equivalent_checked C02_param_on_shard C02_proxy_restores C02_routing_param_forgotten '
+        'theorems': 'C02_equivalent C02_equivalent_checked C02_equivalent_for_rules C02_equivalent_for_rules_checked C02_param_on_shard C02_proxy_restores C02_routing_param_forgotten '
                     'C02_param_shipping C02_equiv_refuted_interval_labels C02_equiv_refuted_job_emptied (+ computed witnesses, C02_hypotheses_satisfiable)',
         'trusted_base': ['Model/Translate.v hand-written model of BOTH routes (library PopulateLabels/Target.URL as reference; kvass populateLabels, '
                          'param/invalid-name shipping, target2targetGroup, library PopulateLabels on the shard, translateURL); both are compared with '
@@ -312,7 +312,9 @@ PROPS = {
                       'translation) yields the same target as one plain Prometheus: dropped/failed alike, same visible labels, scheme, host, path, '
                       'and query values; a machine-checked refutation shows the hypothesis on the interval labels is needed (known finding). '
                       'The executable model of both routes is tied to the library and to kvass by a three-way differential run on every run. '
-                      'Partial in one respect: that a given rule list meets hypothesis (1) is evaluated per case, not proved for the rule interpreter.',
+                      'For rule lists of the interpreter, hypothesis (1) is itself proved (C02_equivalent_for_rules): every remaining hypothesis is '
+                      'about the coordinator\'s run alone and is evaluated per generated entry (model_rules_theorem_applies). Outside the '
+                      'theorems: arbitrary regular expressions (the unmodelled stream compares reference and system only).',
         'level_note': 'Trusted: Coq kernel; hand-written two-route model validated three ways on every run; hypotheses of the theorem as listed.',
     },
     'C03': {'engines': [('loop', 120, 3000, ['-shardsize', '10'])], 'rule': "one PRNG: limits (process 60/100/200, head none/half/equal), max-shard 4-6, min-shard 0-1, max-idle 0 or 600 s; 1-5 (1-7) targets with sizes from 1 to limit-1 (total >= series), 1/9 unhealthy, 1/10 not discovered; 1-3 initial shards; initial placement empty (the system builds it) or ARBITRARY (each target on each shard with probability 1/3, 1/5 of the copies in_transfer: duplicates, pending transfers without partner, overload); a prefix of 0-4 events: rounds with or without a fault (a target update lost, a shard unreachable / not ready / refusing the configuration for that cycle), sidecar restarts (new process on the same store directory, default configuration), changes of the discovered set; then 14 fault-free rounds (cycle, every assigned copy scraped 3 times through the real proxy, 400 s pass). Real Coordinator (hook VerifRunOnce) against real TargetsManager+Service+Proxy per shard through Shard.APIGet/APIPost closures (JSON intact), a simulated StatefulSet following the last scale request, idle-since instants mapped between the world clock and the coordinator's clock. Observed after every step: every sidecar's /targets/status/ and /runtimeinfo/, POST bodies and scale requests of every cycle. non-trivial = all; distinct by input", 'theorems': 'C03_place_or_grow C03_placed_or_counted C03_needed_space_grows_the_replica C03_relief_need_nonnegative C03_orphan_transfer_recovered C03_in_transfer_has_partner C03_tie_broken_by_position C03_settled_is_fixpoint C03_settled_updates_repeat_the_assignment (+ C03_settled_example, computed convergence example)', 'trusted_base': ["Model/World.v composes Model/Sidecar.v and Model/Coordinator.v with a StatefulSet and fault steps; it is run in LOCK STEP with the real closed loop: before every cycle the model builds the coordinator's input from ITS OWN sidecar states, the implementation's POST bodies / scale requests must be one of the model's outcomes (all schedules), and after every step every sidecar's reported state must equal the model's", 'the explorer and discovery are scripted by the harness (their behaviour is C20 / C17)', 'hooks: VerifRunOnce, VerifSetTimeNow'], 'assumptions': ['convergence bound: 14 fault-free rounds are enough for the generated sizes (<= 7 targets, <= 6 shards); a history that needs more would be reported as a violation', 'fairness: every assigned copy is scraped 3 times per round; a scale request takes effect before the next cycle; new shards start empty with the default configuration', 'the liveness statement itself (convergence within a bound from every well-formed world) is not one theorem: see Properties/C03.v STATUS'], 'level_text': "Proof (partial): for every input and every iteration order - an eligible target that assignment visits is placed or its size is added to the needed space; needed space from relief is never negative; non-zero needed space with all shards in sync asks for more than the current count, and clamping keeps that below max-shard (place-or-grow for one whole cycle); an in_transfer copy without partner is normal after the recovery pass and nothing stays in_transfer without one; equal loads no longer keep both copies of a duplicate; and the second half of the statement - a settled placement (all in sync, every copy of a discovered target in normal state on exactly one shard, no shard above a relief threshold, every discovered target held or not assignable, idle time-out off) is a fixpoint of the cycle under every schedule: no event, the scale request is the current count, whatever update is still sent repeats the reported assignment. Not proved: 'converges within B rounds from every well-formed world'; that is validated on the REAL closed loop (lock-step model agreement after every step, end states converged and stable).", 'level_note': 'Trusted: Coq kernel; hand-written closed-loop model validated in lock step; convergence is checked on runs, not proved (liveness).'},
